@@ -4,6 +4,10 @@ import H2V.Lemmas.ConnNoPanicPHist
 import H2V.Lemmas.ConnNoPanicPAll
 import H2V.Lemmas.ConnNoPanicPAll2
 import H2V.Lemmas.ConnNoPanicPAll3
+import H2V.Lemmas.ConnNoPanicPAll5
+import H2V.Lemmas.ConnNoPanicPConnTop
+import H2V.Lemmas.ConnNoPanicPFiWitness
+import H2V.Lemmas.ConnNoPanicPDsOh
 import H2V.Lemmas.ConnNoPanicPFuel
 /-
   C08 — no peer input (and no use of the documented API) can make an endpoint panic.
@@ -305,8 +309,11 @@ theorem server_accept_path_cannot_panic {s : Streams} {H : List Nat} (h : NReach
   have := recvTakeRequest_npi hn hj hl (by omega) hq
   exact ⟨this.1.np, this.2.2⟩
 
-/-- non-vacuity: after the request has arrived `next_incoming` returns key 0 -/
-example : (H2V.Lemmas.ConnResetP.run wInitS [.recvHeaders cxReq]).nextIncoming.2 = some 0 := by decide +kernel
+/-- non-vacuity: after the request has arrived (a reachable state) `next_incoming` returns key 0 -/
+example : NReach (H2V.Lemmas.ConnResetP.run wInitS [.recvHeaders cxReq]) [] ∧
+    H2V.Lemmas.ConnCountsP.ErrOK (H2V.Lemmas.ConnResetP.run wInitS [.recvHeaders cxReq]) ∧
+    (H2V.Lemmas.ConnResetP.run wInitS [.recvHeaders cxReq]).nextIncoming.2 = some 0 :=
+  ⟨wOpsS1_nreach, wOpsS1_facts.1, wOpsS1_facts.2⟩
 
 /-- **Model-only observation** (not a defect of h2; recorded as the precondition `NotRR` above): with an arbitrary error
     argument, `Streams::handle_error(Error::Reset(1, NO_ERROR, Initiator::Remote))` marks a queued stream "reset by the
@@ -317,6 +324,94 @@ theorem handle_error_with_remote_reset_counterexample :
     (H2V.Lemmas.ConnResetP.run cxInit cxOps).panicked = some "assertion failed: self.num_remote_reset_streams > 0" ∧
     (H2V.Lemmas.ConnResetP.run cxInit [.recvHeaders cxReq, .handleError (.goAway [] 0 .remote), .nextIncoming]).panicked = none :=
   handleError_remoteReset_counterexample
+
+/-- **No panic in the stream layer but the model's own fuel markers — all operations, with the write path**
+    (partial: connections without server push; one residual STATE hypothesis `OH`, see below).
+    `WReach OH s w H T`: histories of (stream layer `s`, the codec's writer `w`, handles held `H`, response futures that have
+    not returned yet `T`) from the stream layer of a new connection and an empty writer: every constructor of ConnResetP's
+    `Op` outside the write path (arbitrary arguments, any order; `opPre5`), `Streams::poll_complete` and
+    `send_pending_refusal` run against the CURRENT writer (any fuel, any transport state), the connection's own writer steps
+    (`WStep`: control frames, `poll_ready`, `flush`, `shutdown`, the two peer settings), and the two fuel markers of the
+    connection model.  Conclusion: either no panic site has fired and the invariant bundle `GoodW` holds, or the recorded
+    message is one of the model's four out-of-fuel markers (`FuelAll`; the Rust loops have no fuel; a recorded message is
+    never overwritten: `op_sticky`).  So every `assert!`/`expect`/`unwrap`/`unreachable!`/dangling-key site of
+    streams.rs, recv.rs, send.rs, prioritize.rs, counts.rs, store.rs and flow_control.rs that the model records is dead —
+    including `pop_frame`'s two `FlowControl::send_data` asserts, `reclaim_frame`, `assert!(!stream.is_counted)` of
+    `inc_num_send_streams`, `.expect("unexpected flow control state")`, and "poll_response called after response returned".
+    Preconditions (`opPre5`; all are argument / API-discipline conditions except `refused`, `max_stream_id`, `ReqHead`, `OH`):
+    * frames: `s.recv.refused = none` at HEADERS (the connection sends the refusal first), `max_stream_id ≥ id` at
+      `Recv::go_away` (ConnCtlP), DATA length ≤ 2^31-1, WINDOW_UPDATE increment and SETTINGS_INITIAL_WINDOW_SIZE ≤ 2^31-1
+      (decoder), `handle_error` not with `Reset(_, _, Remote)`, an acknowledged local SETTINGS frame answers `Ok`;
+    * handles: a call only through a held handle (`opKey3`); `take_request` while the request head is in place and not on
+      a client stream awaiting its response; `poll_response` only until it has returned the response (`T`);
+      `send_informational` / `push_request` only on the handle of a PEER-initiated stream (the type `SendResponse`; see
+      the two counterexamples below); `send_data` with `buffered + len < 2^64`; `set_target_window_size ≤ 2^31-1`;
+    * `ErrOK s`: the quota of library-initiated resets is not exhausted (NOTES §5);
+    * RESIDUAL: `OH` in every state of the history — "the front frame of a stream waiting in `pending_open` is not DATA".
+      It is what `Send::send_reset`'s pending_open branch (keep the front frame, zero `buffered_send_data`) needs; np-ds
+      proved it preserved by all but five operations and could not close those; no typed history violating it is known. -/
+theorem no_panic_stream_layer_with_write_path_partial {s : Streams} {w : Writer} {H T : List Nat} (h : WReach OH s w H T)
+    (he : H2V.Lemmas.ConnCountsP.ErrOK s) :
+    (s.panicked = none ∧ GoodW OH s w H T) ∨ ∃ m, s.panicked = some m ∧ FuelAll m :=
+  wreach_residual h he
+
+/-- non-vacuity: a client sends a request, `poll_complete` writes it, the response arrives, the response future returns it, the
+    handle is dropped, `poll_complete`, EOF: nothing panicked, everything released -/
+example : WReach OH wS5 wP2.2.1 [] [] ∧ H2V.Lemmas.ConnCountsP.ErrOK wS5 ∧ wS5.panicked = none ∧ wS5.store.slab.length = 0 :=
+  ⟨wS5_wreach, wS5_facts.1, wS5_facts.2.1, wS5_facts.2.2⟩
+
+/-- **Model-only observation** (typing precondition `fiPre`; not reachable through h2's public API): informational
+    headers sent through the handle of a PUSHED stream (`SendPushedResponse` has no `send_informational`) let the promised
+    stream be counted when its PUSH_PROMISE is written and again queued in `pending_open` by `send_response`; the next
+    `poll_complete` fires `assert!(!stream.is_counted)`. -/
+theorem informational_on_pushed_handle_counterexample :
+    (H2V.Lemmas.ConnResetP.run fiS0 (fiOps.take 7)).panicked = none ∧
+    ((H2V.Lemmas.ConnResetP.run fiS0 (fiOps.take 7)).stream 1).isCounted = true ∧
+    ((H2V.Lemmas.ConnResetP.run fiS0 (fiOps.take 7)).stream 1).isPendingOpen = true ∧
+    (H2V.Lemmas.ConnResetP.run fiS0 fiOps).panicked = some "assertion failed: !stream.is_counted" :=
+  fi_untyped_counterexample
+
+/-- **Model-only observation** (same typing violation): afterwards a pushed stream can wait in `pending_open` with
+    `pending_send = [DATA(10), RST_STREAM]` and `buffered_send_data = 0` — `OH` and the accounting invariant `DSum` fail
+    (in the Rust the next `pop_frame` would underflow `buffered_send_data` in a debug build). -/
+theorem pending_open_with_data_front_counterexample :
+    (H2V.Lemmas.ConnResetP.run ohInit ohOps).panicked = none ∧ ¬ DSum (H2V.Lemmas.ConnResetP.run ohInit ohOps) :=
+  ⟨oh_counterexample.1, oh_counterexample_not_dsum⟩
+
+/-- **The connection layer adds no panic and calls the stream layer only within its preconditions**: in every
+    reachable connection `CReach c H T` — a new client (`Conn.init`, ENABLE_PUSH = 0) or server (`Conn.initServer`)
+    connection with a legal configuration (`CfgOK`: max_frame_size ≤ 2^24-1, `CwsOK`: connection window ≤ 2^31-1, both
+    asserted by the real builder; SETTINGS_INITIAL_WINDOW_SIZE left at its default), then any sequence of: `poll`
+    (`protoPoll` / the client's `clientPoll`, any fuel), `set_target_window_size`, graceful and abrupt shutdown, the PING
+    handle, every handle call of the application (`isHandleOp`, preconditions `opPre5`), and the environment (transport
+    input/output state, waker) — the connection invariant `ConnOK` holds (ConnCtlP's GOAWAY invariant, the shutdown-PING
+    invariant, the decoder bounds: under it none of the SEVEN `Conn.panic` asserts of ConnProto can fire — np-conn), and the
+    stream layer together with the codec's writer is in a state of the final stream-layer relation `WReach` with NO residual
+    promise (`RT`): whatever octets the peer sends, every call the connection makes on the stream layer satisfies the
+    preconditions of `no_panic_stream_layer_with_write_path_partial` (`refused = none` at HEADERS, `max_stream_id ≥ id`,
+    frame bounds from the decoder, `handle_error` only with GOAWAY / I/O errors, …), and `poll_complete` always runs
+    against the connection's own writer. -/
+theorem reachable_connection_is_a_stream_layer_history {c : Conn} {H T : List Nat} (h : CReach c H T) :
+    ConnOK c ∧ WReach RT c.streams c.codec.w H T :=
+  ⟨(creach_wreach h).1, (creach_wreach h).2.2⟩
+
+/-- non-vacuity: a new client connection, polled, a request sent through `SendRequest`, polled again: one stream, no panic -/
+example : (∃ H T, CReach wC3 H T) ∧ H2V.Lemmas.ConnCountsP.ErrOK wC3.streams ∧ wC3.streams.panicked = none ∧
+    wC3.streams.store.slab.length = 1 :=
+  ⟨wC3_creach, wC3_facts.1, wC3_facts.2.1, wC3_facts.2.2⟩
+
+/-- **No endpoint panic in any reachable connection, modulo the open lemma about `OH`** (partial, CONDITIONAL).
+    `P : Plug RT Q` says: some predicate `Q` on the stream layer implies `OH` ("the front frame of a stream waiting in
+    `pending_open` is not DATA"), holds initially and is kept by every operation in a good state (NOTES §5: np-ds proved
+    `OH` kept by all but five operations).  Given that, in every reachable state of a connection either nothing has
+    panicked and all invariants hold, or the recorded message is one of the model's out-of-fuel markers.  The stream-layer
+    theorem above is the same statement with `OH` as a hypothesis on the states instead. -/
+-- (non-vacuity of `CReach c H T ∧ ErrOK c.streams`: the example above; `Plug RT Q` is the open lemma and has no witness yet)
+theorem no_panic_in_any_reachable_connection_modulo_OH_partial {Q : Streams → Prop} (P : Plug RT Q) {c : Conn} {H T : List Nat}
+    (h : CReach c H T) (he : H2V.Lemmas.ConnCountsP.ErrOK c.streams) :
+    (c.streams.panicked = none ∧ ConnOK c ∧ GoodW Q c.streams c.codec.w H T) ∨
+    ∃ m, c.streams.panicked = some m ∧ FuelAll m :=
+  creach_good P h he
 
 /-- **The invariant behind it, in every reachable state**: besides `panicked = none`, (a) `find_mut(id)` hands out
     only keys that resolve, to an entry with that stream id, and the id map is a map (`IdsOK`); (b) the good-state
@@ -412,3 +507,8 @@ end H2V.Props.C08NoPanic
 #print axioms H2V.Props.C08NoPanic.no_panic_without_server_push_40_partial
 #print axioms H2V.Props.C08NoPanic.server_accept_path_cannot_panic
 #print axioms H2V.Props.C08NoPanic.handle_error_with_remote_reset_counterexample
+#print axioms H2V.Props.C08NoPanic.no_panic_stream_layer_with_write_path_partial
+#print axioms H2V.Props.C08NoPanic.informational_on_pushed_handle_counterexample
+#print axioms H2V.Props.C08NoPanic.pending_open_with_data_front_counterexample
+#print axioms H2V.Props.C08NoPanic.reachable_connection_is_a_stream_layer_history
+#print axioms H2V.Props.C08NoPanic.no_panic_in_any_reachable_connection_modulo_OH_partial
